@@ -123,4 +123,83 @@ theorem C13_totp_confirm (c : Ctx) (u : User) (hu : c.ctxUser = some u)
       simp only [bind_apply, backend_eq]
       cases oracle c <;> simp [pure_apply, M.fail, M.stop, M.act, M.modify, tick]
 
+
+/-! ### Disabling a factor -/
+
+theorem no_tfa_handlers (us : List Unit) (e : Ev) (he : e = .tfaRemoved ∨ e = .tfaAdded) :
+    us.flatMap (·.before e) = [] ∧ us.flatMap (·.after e) = [] := by
+  induction us with
+  | nil => exact ⟨rfl, rfl⟩
+  | cons u us ih =>
+    simp only [List.flatMap_cons, ih.1, ih.2, List.append_nil]
+    rcases he with rfl | rfl <;> cases u <;> exact ⟨rfl, rfl⟩
+
+@[simp] theorem after_tfaRemoved (us : List Unit) : us.flatMap (fun x => x.after Ev.tfaRemoved) = [] :=
+  (no_tfa_handlers us _ (Or.inl rfl)).2
+
+theorem respond_store (p t) (c : Ctx) : (M.respond p t c).2.store = c.store := by
+  unfold M.respond M.render
+  simp only [bind_apply, backend_eq]
+  cases oracle c <;> simp [pure_apply, M.fail, M.stop, M.act, M.modify, tick]
+
+/-- Saving a record, announcing it, answering: storage ends up unchanged (the save failed) or
+with exactly that record written. -/
+theorem save_then_answer_store (u' : User) (pg : Page) (msg : String) (ev : Ev) (hev : ev = .tfaRemoved) (c2 : Ctx) :
+    let r := (do
+      if ← M.save u' then M.fail "save" else
+      M.logf msg [u'.pid]
+      M.setCtxUser u'
+      if ← M.fireAfter ev then M.stop .done else
+      M.respond pg : H PUnit) c2
+    r.2.store = c2.store ∨ r.2.store = c2.store.upsert u' := by
+  subst hev
+  simp only
+  unfold M.save
+  simp only [bind_apply, backend_eq]
+  cases oracle c2 with
+  | some k => left; simp [pure_apply, M.fail, M.stop, tick]
+  | none =>
+    right
+    simp only [bind_apply, M.modify, pure_apply, Bool.false_eq_true, if_false, M.logf, M.setCtxUser, fireAfter, M.get,
+      after_tfaRemoved, callHandlers]
+    rw [respond_store]
+    simp [tick]
+
+/-- **C13_totp_remove.** Disabling TOTP: relative to what `totpValidate` left in storage, the
+removal handler changes storage only when `totpValidate` reported success (a current code for
+the user's secret, or one of the user's recovery codes — `C02_totp_success_means`), and then
+only by writing that user's record with the secret cleared. -/
+theorem C13_totp_remove (c : Ctx) :
+    (∀ u c1, totpValidate c = (.ok (some (u, .success)), c1) →
+        (totpPostRemove c).2.store = c1.store ∨
+        (totpPostRemove c).2.store = c1.store.upsert { u with totpSecret := [] }) ∧
+    (∀ r c1, totpValidate c = (r, c1) → (∀ u, r ≠ .ok (some (u, .success))) →
+        (totpPostRemove c).2.store = c1.store) := by
+  constructor
+  · intro u c1 hv
+    unfold totpPostRemove
+    rw [bind_apply, hv]
+    simp only [bne_self_eq_false, Bool.false_eq_true, if_false, bind_apply, M.delS, M.act, M.modify, M.writeBack]
+    cases hcu : c1.ctxUser with
+    | none =>
+      simp only
+      exact save_then_answer_store { u with totpSecret := [] } _ _ .tfaRemoved rfl _
+    | some w =>
+      simp only
+      exact save_then_answer_store { u with totpSecret := [] } _ _ .tfaRemoved rfl _
+  · intro r c1 hv hns
+    unfold totpPostRemove
+    rw [bind_apply, hv]
+    cases r with
+    | stop s => rfl
+    | ok o =>
+      cases o with
+      | none => simp only; exact respond_store _ _ _
+      | some p =>
+        obtain ⟨u, st⟩ := p
+        cases st with
+        | success => exact absurd rfl (hns u)
+        | invalid => simp [bind_apply, M.logf, M.modify, respond_store]
+        | repeated => simp [bind_apply, M.logf, M.modify, respond_store]
+
 end AuthbossModel.M
